@@ -266,6 +266,9 @@ func (e *integEngine) checkC13(x *integExpect) {
 			}
 			if info.Deadline != js+timeout {
 				c.Violate("C13", "wrong-deadline", "command %s started at %s with timeout %s: deadline %s, want %s (each command gets the full timeout)", info.Key, js, timeout, info.Deadline, js+timeout)
+				if info.CtxDone && info.Deadline < js+timeout && len(e.cancelCalls) == 0 {
+					c.Violate("C06", "command-cut-short", "task %s: command %s was interrupted at %s, before its own timeout (%s after its start at %s) had passed: a command that does not fail must not end the task", t.Name, info.Key, info.CtxDoneAt, timeout, js)
+				}
 			}
 			if info.CtxDone {
 				if info.CtxDoneAt != info.Deadline {
@@ -279,6 +282,7 @@ func (e *integEngine) checkC13(x *integExpect) {
 				want := fmt.Sprint(planExit(e.w.PlanFor(info.ID, e.pl.identity(info.GID))))
 				if r.Result != want {
 					c.Violate("C13", "in-time-command-affected", "command %s finished within its timeout but ended with %s, planned %s", info.Key, r.Result, want)
+					c.Violate("C06", "command-cut-short", "task %s: command %s would have finished within its own timeout (planned result %s) but ended with %s: a command that does not fail must not end the task", t.Name, info.Key, want, r.Result)
 				}
 				c.Count("c13_commands_in_time")
 			}
@@ -345,6 +349,7 @@ func (e *integEngine) checkC13(x *integExpect) {
 			}
 			if !loop && ok == want.Failed {
 				c.Violate("C13", "in-time-task-affected", "task %s had no command overrunning its timeout: success=%v, model failed=%v", t.Name, ok, want.Failed)
+				c.Violate("C06", "task-cut-short", "task %s: no command overran its timeout, yet the task's outcome (success=%v) is not what its commands' results say (failed=%v)", t.Name, ok, want.Failed)
 			}
 			c.Count("c13_tasks_without_overrun")
 		}
